@@ -59,6 +59,11 @@ impl Group for C10Sim {
             // a counterparty whose revocation secrets match the signed points but do not chain
             c("scp 0 0|scpr 0 1|cpr 0 g|scp 0 2|cpr 0 g|scp 0 3|cpr 0 g"),
             c("scpr 0 0|scp 0 1|cpr 0 g|scpr 0 2|cpr 0 g"),
+            // refused block requests with a full header window (100 remembered headers)
+            c("blkn 100|blk+ b|blk- b|blk- g|blk+ b|blk+ g"),
+            c("blkn 97|blk+ b|blk+ g|blk+ b|blk+ g|blk+ b"),
+            // a stale counterparty commitment number with changed HTLCs is refused late
+            c("scp 0 0|scp 0 1|scp -1 2|scp -1 5|cpr 0 g|scp -2 1"),
             // re-signing the funding transaction: accepted, then refused at the signing step
             c("osign g|osign b|vh 0 g 0|rv 0|osign g"),
         ]
